@@ -29,6 +29,12 @@ def templates(tier="quick"):
     build = len(ops)
     ops += [ninja_op(j=2), ninja_op(j=2, targets=["a.o"]), ninja_op(j=2, faults={"b.o": {"code": 1}}),
             _tool("recompact"), tool_op("deps", ["-t", "deps"]), tool_op("cleandead"), _tool("restat")]
+    for t in (_tool("recompact"), dict(ninja_op(j=2, subsets=False))):
+        f = dict(t)
+        f["crash"] = True
+        f["label"] = t["label"] + " [a fault at every file operation]"
+        f["no_expand"] = True
+        ops.append(f)
     dup = next(i for i, o in enumerate(ops) if o["op"] == "dupdeps")
     T.append(scenario("c09/deps_tools/built", "c09", [v0, v1], ops=ops, init=[build], depth=d, tags=["depslog", "tools"]))
     T.append(scenario("c09/deps_tools/long_history", "c09", [v0, v1], ops=ops, init=[build, dup], depth=d,
